@@ -144,13 +144,7 @@ var c11Outcome = map[string]string{}
 func init() { propChecks["C11"] = checkC11 }
 
 func checkC11(w *Worker) {
-	k := 3
-	if w.Tier == "thorough" {
-		k = 4
-	}
-	names := []string{"r0", "r1", "r2", "r3", "r4"}[:k]
-	all := append(append([]string{}, names...), "x")
-	nsub := 1 << uint(k+1)
+	names := []string{"r0", "r1", "r2", "r3", "r4"}
 	c11Body := func(x *Exec, book absBook, n int, api int, what string) {
 		hs := refHeight(book)
 		mh := maxHeight(hs)
@@ -211,38 +205,50 @@ func checkC11(w *Worker) {
 			x.Violate("C11|"+what+"|chain-lt-N-rejected", fmt.Sprintf("book {%s} N=%d via %s, visiting order %v: longest reference chain is %d (< N) but resolution failed: %s", book, n, apiNames[api], *visits, mh, got), rep)
 		}
 	}
-	w.Explore("graphs", ExploreOpts{ShardDepth: 2}, func(x *Exec) {
-		book := absBook{}
-		for i := 0; i < k; i++ {
-			mask := x.Choose(nsub, "input:ingredients")
-			r := absRecipe{Name: names[i]}
-			for j, nm := range all {
-				if mask&(1<<uint(j)) != 0 {
-					r.Ings = append(r.Ings, absIng{nm, 1})
+	graphs := func(k int) func(x *Exec) {
+		names := names[:k]
+		all := append(append([]string{}, names...), "x")
+		nsub := 1 << uint(k+1)
+		return func(x *Exec) {
+			book := absBook{}
+			for i := 0; i < k; i++ {
+				mask := x.Choose(nsub, "input:ingredients")
+				r := absRecipe{Name: names[i]}
+				for j, nm := range all {
+					if mask&(1<<uint(j)) != 0 {
+						r.Ings = append(r.Ings, absIng{nm, 1})
+					}
+				}
+				book = append(book, r)
+			}
+			n := 1 + x.Choose(k+2, "input:maxdepth")
+			api := x.Choose(2, "input:api")
+			c11Quantities(book, x.Choose(2, "shape:quantities")*2)
+			// a recipe may list the same ingredient on several of its lines: that is one more line, not one more level
+			switch x.Choose(3, "shape:repeated-lines") {
+			case 1:
+				for i := range book {
+					if len(book[i].Ings) > 0 {
+						book[i].Ings = append(book[i].Ings, book[i].Ings[0])
+					}
+				}
+			case 2:
+				for i := range book {
+					if n := len(book[i].Ings); n > 0 {
+						book[i].Ings = append([]absIng{book[i].Ings[n-1], book[i].Ings[n-1]}, book[i].Ings...)
+					}
 				}
 			}
-			book = append(book, r)
+			c11Body(x, book, n, api, "graph")
 		}
-		n := 1 + x.Choose(k+2, "input:maxdepth")
-		api := x.Choose(2, "input:api")
-		c11Quantities(book, x.Choose(2, "input:quantities")*2)
-		// a recipe may list the same ingredient on several of its lines: that is one more line, not one more level
-		switch x.Choose(3, "input:repeated-lines") {
-		case 1:
-			for i := range book {
-				if len(book[i].Ings) > 0 {
-					book[i].Ings = append(book[i].Ings, book[i].Ings[0])
-				}
-			}
-		case 2:
-			for i := range book {
-				if n := len(book[i].Ings); n > 0 {
-					book[i].Ings = append([]absIng{book[i].Ings[n-1], book[i].Ings[n-1]}, book[i].Ings...)
-				}
-			}
-		}
-		c11Body(x, book, n, api, "graph")
-	})
+	}
+	if w.Tier == "thorough" {
+		// four recipes: plain quantities and lines (the full product does not finish within the deadline); three recipes: every shape
+		w.Explore("graphs-k4-plain", ExploreOpts{ShardDepth: 2, Budgets: map[string]int{"shape": 0}}, graphs(4))
+		w.Explore("graphs-k3-all-shapes", ExploreOpts{ShardDepth: 2}, graphs(3))
+	} else {
+		w.Explore("graphs", ExploreOpts{ShardDepth: 2}, graphs(3))
+	}
 	// acyclic books on 4 (thorough 5) recipes in topological numbering: every subset of the later
 	// recipes and the leaf as ingredient set, listed in ascending or descending order (deep-before-shallow
 	// and shallow-before-deep forks), against the two limits that matter: N = longest chain (must
